@@ -26,6 +26,31 @@ pub fn cob_closed_eval(s: &mut Src) -> R {
     Ok(())
 }
 
+/// open component (an arc strip) with g handles and (x, y) dots: part_eval returns a0 [c] + aX [c;X] + aY [c;Y]
+/// with a0 + aX X + aY Y == X^x Y^y (2X - h)^g in A  (native replay only)
+pub fn cob_open_part_eval(s: &mut Src) -> R {
+    let (g, x, y) = (s.small(0, 3) as usize, s.small(0, 4) as usize, s.small(0, 4) as usize);
+    let (h, t) = (s.small(-3, 3), s.small(-3, 3));
+    reach!();
+    let arc = || Tng::from(TngComp::arc([0, 1]));
+    let c = CobComp::new(arc(), arc(), g, (x, y));
+    let (hh, tt) = (h as i128, t as i128);
+    let p = amul(amul(apow((0, 1), x, hh, tt), apow((-hh, 1), y, hh, tt), hh, tt), apow((-hh, 2), g, hh, tt), hh, tt);
+    let r: LcCob<i64> = c.part_eval(&h, &t);
+    let mut acc: A = (0, 0);
+    for (cob, a) in r.iter() {
+        ob!(cob.ncomps() == 1, "part_eval::terms-are-single-components");
+        let cc = cob.comp(0);
+        ob!(cc.genus() == 0, "part_eval::terms-have-genus-0");
+        let is = |d: (usize, usize)| *cc == CobComp::new(arc(), arc(), 0, d);
+        ob!(is((0, 0)) || is((1, 0)) || is((0, 1)), "part_eval::terms-carry-at-most-one-dot");
+        let basis: A = if is((0, 0)) { (1, 0) } else if is((1, 0)) { (0, 1) } else { (-hh, 1) };
+        acc = (acc.0 + (*a as i128) * basis.0, acc.1 + (*a as i128) * basis.1);
+    }
+    ob!(acc == p, "open-component-part_eval-represents-X^x.Y^y.(2X-h)^g");
+    Ok(())
+}
+
 // C01 / C05 (Gaussian elimination kernel) — witness search / replay on the real crate: the inverse of
 // an invertible morphism u . id over Q is u^-1 . id  (f^-1 . f == id).  Paired with the Verus unit lccob.
 use yui::Ratio;
@@ -49,4 +74,4 @@ pub fn cob_lc_inv(s: &mut Src) -> R {
     ob!(!z.is_invertible() && z.inv().is_none(), "LcCob::inv(0)-is-none");
     Ok(())
 }
-crate::harness_table!(COB: cob_closed_eval [unwind 8], cob_lc_inv [unwind 4]);
+crate::harness_table!(COB: cob_closed_eval [unwind 8], cob_open_part_eval [unwind 8], cob_lc_inv [unwind 4]);
